@@ -759,6 +759,7 @@ package otr3
 //@   preserves [C01.revealsig.frame] c.ake.ourPublicValue, c.Policies, c.msgState, c.ake, c.version, c.sentRevealSig, c.keys.ourKeyID, c.keys.theirKeyID, c.ourCurrentKey, c.theirInstanceTag, c.ourInstanceTag
 //@   ensures [C01.gate.revealsig] err == nil ==> (commitok(nil) && akemacok(nil) && sigok(nil) && c.ake.theirPublicValue != nil && inGroup(c.ake.theirPublicValue))
 //@   ensures [C01.theirkey.onlyverified.revealsig,C06.theirkey.reject.revealsig] err != nil ==> c.theirKey == old(c.theirKey)
+//@   ensures [C06.revealsig.reject.commit] (err != nil && !old(commitok(nil)) && !commitok(nil)) ==> (c.ake.encryptedGx === old(c.ake.encryptedGx) && bytes(c.ake.encryptedGx) == old(bytes(c.ake.encryptedGx)) && c.ake.theirPublicValue == old(c.ake.theirPublicValue))
 //@   modifies commitok(nil), akemacok(nil), sigok(nil)
 
 //@ func (*Conversation).processSig
